@@ -5,6 +5,7 @@ package main
 import (
 	"flag"
 	"fmt"
+	"go/ast"
 	"os"
 	"path/filepath"
 	"runtime/debug"
@@ -12,6 +13,8 @@ import (
 	"strconv"
 	"strings"
 	"time"
+
+	"golang.org/x/tools/go/packages"
 )
 
 var repoDir string
@@ -47,6 +50,21 @@ func main() {
 	list := flag.Bool("list", false, "list all obligations")
 	multi := flag.String("multi", "", "checker validation only: comma-separated properties (or 'all') run against ONE load of the repository; prints `RESULT <id> exit=<n>` per property; no evidence is written")
 	flag.Parse()
+	if os.Getenv("YAE_DUMPFUNCS") != "" {
+		abs, _ := filepath.Abs(*repo)
+		prog, err := loadProg(abs)
+		if err != nil {
+			fmt.Fprintln(os.Stderr, err)
+			os.Exit(2)
+		}
+		var names []string
+		prog.eachFuncDecl(func(pk *packages.Package, fd *ast.FuncDecl) { names = append(names, fnName(short(pk.PkgPath), fd)) })
+		sort.Strings(names)
+		for _, n := range names {
+			fmt.Println(n)
+		}
+		os.Exit(0)
+	}
 	if *multi != "" {
 		os.Exit(runMulti(*repo, *multi, *tier, *knownPath))
 	}
